@@ -59,6 +59,9 @@ def subst_any(x, m):
     return x
 
 
+K_SENS_ABS = "sensitivity-ignores-parameter-inside-abstracted-condition"
+
+
 def designed_cases(seed, tier):
     """the parameter reaches a variable only through a chain of initial assignments; that variable's loop update mentions
     neither the parameter nor any other parameter-dependent variable"""
@@ -110,6 +113,19 @@ def designed_cases(seed, tier):
         out.append({"id": f"backchain-{cs}", "text": text, "ast": prog.to_json(), "param": "p", "param_kind": kind, "inits": K.frac_enc({}),
                     "goals": goals, "N": depth + 2, "tests": [[t.numerator, t.denominator] for t in tests],
                     "features": ["designed:backward-dependency-chain-depth-%d" % depth] + (["designed:dependent-times-independent"] if indep else [])})
+    # the parameter inside a branch condition over a fresh continuous draw (u < p): Polar replaces the condition by an opaque
+    # probability symbol, the dependence on the parameter must not be lost (known finding K_SENS_ABS when it is)
+    for j in range(2 if tier == "quick" else 12):
+        cs = K.harness_seed(seed, ID + "-abscond", j)
+        r = random.Random(cs)
+        cop = r.choice(["<", ">", "<=", ">="])
+        upd = r.choice(["x = x + 1", "x = x + 2 {1/2} x", "x = 1/2*x + 1"])
+        text = f"x = 0\nu = 0\ny = 0\nwhile true:\n    u = Uniform(0, 1)\n    if u {cop} p:\n        {upd}\n    end\n    y = y + 1 {{1/2}} y\nend\n"
+        prog = parse_program(text)
+        tests = [Fraction(r.randint(2, 8), 11), Fraction(r.randint(1, 6), 7)]
+        out.append({"id": f"abscond-{cs}", "text": text, "ast": prog.to_json(), "param": "p", "param_kind": "prob", "inits": K.frac_enc({}),
+                    "goals": [{"x": 1}, {"x": 1, "y": 1}], "N": 3, "tests": [[t.numerator, t.denominator] for t in tests],
+                    "features": ["designed:parameter-inside-abstracted-condition"]})
     return out
 
 
@@ -438,6 +454,19 @@ def run_case(case, tier):
         except K.SoftTimeout:
             res["extra"]["moment-goals-time-box"] = 1
             P.reset_settings()
+    if any(v.get("key") is None for v in res["violations"]):
+        # K_SENS_ABS: the parameter occurs in a branch condition of the source program; Polar abstracts such a condition (over a
+        # non-finite variable) as a fresh probability symbol that no longer mentions the parameter
+        from ..lang.ast import cond_vars, walk_stmts
+        in_cond = set()
+        for st_ in walk_stmts(prog.body):
+            if st_[0] == "if":
+                for c_, _ in st_[1]:
+                    cond_vars(c_, in_cond)
+        if param in in_cond:
+            for v in res["violations"]:
+                if v.get("key") is None and v.get("kind") == "wrong-sensitivity":
+                    v["key"] = K_SENS_ABS
     if compared == 0 and not res["violations"]:
         res.update(verdict="inconclusive", reason="refused")
         return res
